@@ -138,6 +138,10 @@ def run_script(script, payloads, roots, rng):
                     w.do_process(op[1])
             elif k == "deliver":
                 j = op[3] if len(op) > 3 else 1
+                if len(w.server.outq[op[1]]) >= j and j > 1:
+                    x = w.head(op[1], j)
+                    if any(x["k"] != "ctl" and y["k"] != "ctl" and x["p"] == y["p"] for y in (w.head(op[1], m) for m in range(1, j))):
+                        j = 1
                 if len(w.server.outq[op[1]]) >= j:
                     hd = w.head(op[1], j)
                     f = op[2] or None
@@ -152,7 +156,15 @@ def run_script(script, payloads, roots, rng):
                 pj = None
                 if isinstance(op[1], list) and op[1][0] == "reorder":
                     r3 = random.Random(op[1][1] + 1)
-                    pj = lambda name, n, r3=r3: r3.randint(1, min(n, REORDER))
+
+                    def pj(name, n, r3=r3):
+                        # one of the first REORDER stanzas, but never overtaking an earlier stanza of the same origin
+                        ok = []
+                        for j in range(1, min(n, REORDER) + 1):
+                            x = w.head(name, j)
+                            if not any(x["k"] != "ctl" and y["k"] != "ctl" and x["p"] == y["p"] for y in (w.head(name, m) for m in range(1, j))):
+                                ok.append(j)
+                        return r3.choice(ok)
                 w.settle(chooser(op[1]), fault_for=fault_for, pick_j=pj)
             elif k == "restart":
                 if not w.enabled():
@@ -351,7 +363,7 @@ def run(only=None):
     finally:
         roots.close()
     r.assumptions += core.ENV_ASSUMPTIONS[:2] + [e2e.AXOLOTL_ASSUMPTION,
-                      "the server is the harness double: per-client queues; it serves clients' stanzas in the order each client sent them and delivers the oldest or second-oldest stanza queued for a recipient",
+                      "the server is the harness double: per-client queues; it serves a client's stanzas in the order the client sent them and delivers the oldest or second-oldest stanza queued for a recipient, never letting a stanza overtake an earlier one of the same origin",
                       "stacks start above the Noise transport (C04/C05 cover it): network(fake dispatcher) | wire tap | coder | logger | axolotl | protocol layers | app double",
                       "prekey batches of 6 (threshold 3), the server asks for more keys when 2 are left",
                       "faults: at most one (dup or corrupt) per message and recipient; corrupt = last ciphertext byte flipped; restarts only at quiescent points"]
